@@ -26,8 +26,8 @@ impl Prop for C09 {
 
     fn profiles(tier: Tier) -> Vec<Profile> {
         match tier {
-            Tier::Quick => vec![prof("signals", 160_000), prof("certain", 80_000)],
-            Tier::Thorough => vec![prof("signals", 1_500_000), prof("certain", 700_000)],
+            Tier::Quick => vec![prof("signals", 160_000), prof("certain", 80_000), prof("many", 3_000)],
+            Tier::Thorough => vec![prof("signals", 1_500_000), prof("certain", 700_000), prof("many", 40_000)],
         }
     }
 
@@ -57,6 +57,13 @@ impl Prop for C09 {
         match profile {
             "signals" => {}
             "certain" => mp.prob_style = 1,
+            "many" => {
+                // more machines than any machine-word has bits
+                mp.max_states = 2;
+                mp.prob_style = 1;
+                let hp = HistParams { min_calls: 2, max_calls: 8, max_batch: 4, clock: ClockProfile::Monotone, ..HistParams::default() };
+                return fw_case(65..=140, &mp, &hp, false, 0);
+            }
             _ => panic!("unknown profile"),
         }
         fw_case(1..=5, &mp, &hp, false, 12)
@@ -66,6 +73,9 @@ impl Prop for C09 {
         let machines = build_machines(&case.machines)
             .unwrap_or_else(|e| panic!("generator produced a machine that Machine::new rejects: {e}"));
         let n = machines.len();
+        if n > 64 {
+            obs.hit("more_than_64_machines");
+        }
         let mut run = FwRun::new(case, machines, Some(50_000_000))
             .map_err(|e| Failure { signature: "framework-new-rejects-validated-machines".into(), detail: e })?;
         let mut nt = false;
@@ -192,6 +202,7 @@ impl Prop for C09 {
 
     fn required_classes() -> Vec<&'static str> {
         vec![
+            "more_than_64_machines",
             "lone_signaller",
             "two_or_more_signallers",
             "same_machine_signals_twice",
